@@ -188,6 +188,9 @@ func runE2(engine string, pk pathKind, o *stack.Olla, a, b *stack.Backend) {
 		others = append(others, [2]string{n, fmt.Sprintf(values[i%len(values)], i)})
 	}
 	others = append(others, [2]string{"X-Multi", "one"}, [2]string{"X-Multi", "two"}, [2]string{"X-Empty", ""})
+	// names olla itself uses on upstream requests, sent by the client with values of its own
+	ollaNamed := [][2]string{{"X-Model", "Client-Chosen-Model"}, {"X-Proxied-By", "edge-gateway/1.0"}}
+	others = append(others, ollaNamed...)
 	presets := []preset{
 		{"none", nil},
 		{"via-1", [][2]string{{"Via", "1.1 alpha"}}},
@@ -294,8 +297,14 @@ func runE2(engine string, pk pathKind, o *stack.Olla, a, b *stack.Backend) {
 				for n, vs := range want {
 					got := q.HeaderValues(n)
 					if strings.Join(got, "\x00") != strings.Join(vs, "\x00") && strings.Join(got, ", ") != strings.Join(vs, ", ") {
-						res.Violate("other-header-altered", map[string]any{"part": "E2", "path": pk.name}, cell+fmt.Sprintf("\n%s: client sent %q, backend received %q", n, vs, got), rp)
-						break
+						wit := map[string]any{"part": "E2", "path": pk.name}
+						if n == "X-Model" || n == "X-Proxied-By" {
+							wit = map[string]any{"part": "E2", "header": n}
+						}
+						res.Violate("other-header-altered", wit, cell+fmt.Sprintf("\n%s: client sent %q, backend received %q", n, vs, got), rp)
+						if n != "X-Model" && n != "X-Proxied-By" {
+							break
+						}
 					}
 				}
 				// forwarded headers: all previous values kept, olla's own appended
